@@ -203,7 +203,7 @@ def open_finding_ids(prop):
     return sorted(k["id"] for k in json.load(open(p)) if prop in k.get("properties", [k.get("property")]) and k.get("status") == "open")
 
 
-def judge(module, files, par=8, timeout=1700, xmx="6g", cfg=None, prop=None):
+def judge(module, files, par=8, timeout=1700, xmx="6g", cfg=None, prop=None, mode=None):
     """Validates recorded trace files against the trace spec <module>. Returns
     dict(n, bad=[(file, index, event)], states, extra=[verdict records])."""
     cfg = cfg or (module + ".cfg")
@@ -216,7 +216,7 @@ def judge(module, files, par=8, timeout=1700, xmx="6g", cfg=None, prop=None):
         kfp = out + ".kf"
         with open(kfp, "w") as kf_:
             json.dump(dict(open=open_finding_ids(prop) if prop else []), kf_)
-        r = tlc(module, cfg, env=dict(TRACE=path, OUT=out, KF=kfp), workers=1, timeout=timeout, xmx=xmx, tag=wd_tag)
+        r = tlc(module, cfg, env=dict(TRACE=path, OUT=out, KF=kfp, **({"MODE": mode} if mode else {})), workers=1, timeout=timeout, xmx=xmx, tag=wd_tag)
         shutil.rmtree(r["wd"], ignore_errors=True)
         if not r["ok"]:
             raise Machinery("judge %s on %s failed:\n%s" % (module, path, r["error"]))
@@ -321,13 +321,13 @@ class Check:
             if len(self.cov["samples"]) < 6:
                 self.cov["samples"].append(strip_h(s))
 
-    def run_and_judge(self, hargs, module, race=False, par=10, keep=False, env=None, timeout=3600, xmx="6g"):
+    def run_and_judge(self, hargs, module, race=False, par=10, keep=False, env=None, timeout=3600, xmx="6g", mode=None):
         """harness driver -> trace files -> TLC judge; collects divergences."""
         stats, _ = harness(hargs, race=race, env=env, timeout=timeout)
         files = stats["files"]
         if stats["events"] == 0:
             raise Machinery("driver %s produced an empty trace" % hargs[0])
-        res = judge(module, files, par=par, prop=self.prop, xmx=xmx)
+        res = judge(module, files, par=par, prop=self.prop, xmx=xmx, mode=mode)
         if res["n"] != stats["events"]:
             raise Machinery("judge saw %d events, driver wrote %d" % (res["n"], stats["events"]))
         self.add_stats(stats)
